@@ -234,13 +234,23 @@ def runB(inp, out, jobs):
             subprocess.run(["git", "-C", d, "checkout", "-q", "--", "."], check=True)
             if not apply(m, d):
                 return dict(m, B="stale")
-            env = dict(os.environ, CARGO_NET_OFFLINE="true")
-            r = subprocess.run(["cargo", "test", "--workspace", "--offline", "-q"], cwd=d, env=env, stdout=subprocess.PIPE,
-                               stderr=subprocess.STDOUT, text=True, timeout=1800)
-            failed = re.findall(r"^test (\S+) \.\.\. FAILED", r.stdout, re.M)[:3]
-            if r.returncode == 0:
+            tmpd = "/tmp/tmp-" + os.path.basename(d)
+            os.makedirs(tmpd, exist_ok=True)
+            env = dict(os.environ, CARGO_NET_OFFLINE="true", TMPDIR=tmpd)
+            # own process group, so that a hanging test binary can be killed together with cargo
+            pr = subprocess.Popen(["cargo", "test", "--workspace", "--offline", "-q"], cwd=d, env=env, stdout=subprocess.PIPE,
+                                  stderr=subprocess.STDOUT, text=True, start_new_session=True)
+            try:
+                out_, _ = pr.communicate(timeout=900)
+            except subprocess.TimeoutExpired:
+                import signal
+                os.killpg(pr.pid, signal.SIGKILL)
+                pr.communicate()
+                return dict(m, B="timeout")
+            failed = re.findall(r"^test (\S+) \.\.\. FAILED", out_, re.M)[:3]
+            if pr.returncode == 0:
                 return dict(m, B="survived")
-            if "error[" in r.stdout or "could not compile" in r.stdout:
+            if "error[" in out_ or "could not compile" in out_:
                 return dict(m, B="nocompile")
             return dict(m, B="killed", tests=failed)
         except subprocess.TimeoutExpired:
